@@ -8,6 +8,7 @@ package main
 
 import (
 	"bytes"
+	"math/big"
 	"reflect"
 	"time"
 
@@ -27,6 +28,18 @@ const year = int64(365 * 24 * 3600 * 1e9)
 type harn struct {
 	c *hmain.Ctx
 	g *gen
+}
+
+// Timestamps outside the int64-nanosecond range are judged against the exact instant (stream 'ts-out-of-range'; the
+// wrap-around was repaired by 1c054cc: the code saturates to MinInt64 / MaxInt64, which keeps the order against every
+// constant strictly inside the range). Left out: such a timestamp against a constant that IS one of the two
+// saturation points (exactly MinInt64 / MaxInt64 ns), where the saturated comparison says "equal".
+func (h *harn) holdBack(f flags) bool {
+	if f.tsSat {
+		h.c.W.Count("skipped_ts_out_of_range_vs_saturation_point")
+		return true
+	}
+	return false
 }
 
 func asciiLower(b []byte) []byte {
@@ -104,19 +117,12 @@ func settleClock(t *rnode, evs []hx.Sx) {
 		}
 		rhs := nominalNow + x.a + x.shift
 		for _, v := range tb.tm {
-			if v != nil && abs64(*v-rhs) < 3*year {
+			if v != nil && new(big.Int).Abs(new(big.Int).Sub(v, big.NewInt(rhs))).Cmp(big.NewInt(3*year)) < 0 {
 				x.mode, x.a = 0, nominalNow
 				return
 			}
 		}
 	})
-}
-
-func abs64(x int64) int64 {
-	if x < 0 {
-		return -x
-	}
-	return x
 }
 
 // bit 1 of `via`: the side conditions of c14_check_eq_eval (lower_hyp, cont_ok) hold on this case by the
@@ -164,6 +170,9 @@ func (h *harn) check(base string, via int, t *rnode, ev hx.Sx) {
 		h.c.W.Count("skipped_escape_sensitive")
 		return
 	}
+	if h.holdBack(f) {
+		return
+	}
 	tb := newTables()
 	tb.addTree(t, ev)
 	h.count(t)
@@ -188,6 +197,9 @@ func (h *harn) seq(base string, via int, ts []*rnode, evs []hx.Sx, allowEsc bool
 	}
 	if f.escState && !allowEsc {
 		h.c.W.Count("skipped_escape_sensitive")
+		return
+	}
+	if h.holdBack(f) {
 		return
 	}
 	var tsx []hx.Sx
@@ -226,7 +238,7 @@ func (h *harn) proc(base string, which int, t *rnode, mode string, invert bool, 
 	if len(evs) == 0 {
 		tb.addConds(cs, jObj())
 	}
-	if f.escState {
+	if f.escState || h.holdBack(f) {
 		return
 	}
 	if t != nil {
@@ -255,10 +267,15 @@ func c14Gen(c *hmain.Ctx) {
 	genExhaustive(h)
 	genTargeted(h)
 	genRandom(h)
+	genThresholds(h)
 }
 
 func main() {
+	// what cmd/file.d/file.d.go:96-97 sets before anything is decoded: with the library default of 128 nodes no event of
+	// this harness would ever make a Root grow its node pool; with 16 the wide events walk the 16/32/64/128 expansions
+	insaneJSON.DisableBeautifulErrors = true
+	insaneJSON.StartNodePoolSize = 16
 	hmain.Run(&hmain.Prop{ID: "C14",
-		Rule: "exhaustive: every equal/contains/prefix/suffix node (case-sensitive and not) over every list of 1-2 values from {nil, strings over {a,B} up to length 2} x every field from {absent, null, 1, {}, strings over {a,B} up to length 3}; every and/or/not tree of depth <= 2 and width <= 2 over a true and a false leaf; every type check x every kind of field. random: trees of depth <= 6 over all operators with values derived from the event's own strings (shared prefixes, equal lengths, other case, multi-byte), events with absent/null/number/bool/object/array fields; sequences of checkers over sequences of events; legacy match_fields through processor.isMatch and through a real pipeline with a discard action; constructor-rejected rules. Non-trivial = at least one leaf's (condition's) field exists in the event; distinct = distinct (sub-model, case) text.",
+		Rule: "exhaustive: every equal/contains/prefix/suffix node (case-sensitive and not) over every list of 1-2 values from {nil, strings over {a,B} up to length 2} x every field from {absent, null, 1, {}, strings over {a,B} up to length 3}; every and/or/not tree of depth <= 2 and width <= 2 over a true and a false leaf; every type check x every kind of field. random: trees of depth <= 6 over all operators with values derived from the event's own strings (shared prefixes, equal lengths, other case, multi-byte), events with absent/null/number/bool/object/array fields; sequences of checkers over sequences of events; legacy match_fields through processor.isMatch and through a real pipeline with a discard action; constructor-rejected rules. thresholds: events of 15-33 fields (insane-json map index from 17 fields on) alternating with narrow ones on one Root, through doif and through processor.isMatch; int_val_cmp on integers of 17-20 digits and around 2^31, 2^32, 2^53, 2^63; timestamps at both ends of the int64-nanosecond range; ts_cmp `now` with a 2 ms update interval and pauses between events. Non-trivial = at least one leaf's (condition's) field exists in the event; distinct = distinct (sub-model, case) text.",
 		Gen:  c14Gen, Exec: c14Exec})
 }
